@@ -49,10 +49,10 @@ func cfg(thorough bool) config {
 	if thorough {
 		return config{
 			expNs: []int{0, 1, 2, 3, 4, 5, 6, 7, 8, 9, 10, 11, 12, 13, 14, 15, 16, 31, 32, 63, 64, 100, 127, 128, 200, 255, 256, 300, 400, 500, 510, 511},
-			expK:  16384, expChunk: 2048,
-			logDenseStep: 1, logCoarseStep: 16, logKStep: 1, logKMax: 1020,
+			expK:  65536, expChunk: 4096,
+			logDenseStep: 1, logCoarseStep: 4, logKStep: 1, logKMax: 1020,
 			powBaseDen: 1024, powExpDen: 64,
-			sqrtSmallM: 20000, sqrtRun: 1000000,
+			sqrtSmallM: 100000, sqrtRun: 4000000,
 		}
 	}
 	return config{
@@ -60,7 +60,7 @@ func cfg(thorough bool) config {
 		expK:  1024, expChunk: 1025,
 		logDenseStep: 1, logCoarseStep: 64, logKStep: 7, logKMax: 1020,
 		powBaseDen: 64, powExpDen: 16,
-		sqrtSmallM: 2048, sqrtRun: 250000,
+		sqrtSmallM: 2048, sqrtRun: 500000,
 	}
 }
 
@@ -436,22 +436,6 @@ func allItems(thorough bool) []item {
 		fn := fn
 		add(fn+" base<1", func(c *ctx) { powItem(c, cf, fn, true) })
 		add(fn+" base>=1", func(c *ctx) { powItem(c, cf, fn, false) })
-		if fn == "PowApprox" {
-			// base = 2 exactly belongs to PowApprox's contract (0 < base <= 2)
-			add(fn+" base=2 edge", func(c *ctx) {
-				ag := newAgg()
-				n := 0
-				for _, e := range []*big.Int{bi(0), bi(1), bstr("0.1", 18), bstr("0.333333333333333333", 18), bstr("0.5", 18), bstr("0.9", 18), bsub(one18, bi(1))} {
-					n++
-					if f := c.checkPow(fn, two18, e); f != nil {
-						ag.add(f, fbi(e))
-					}
-				}
-				ag.flush(c, fn+" base=2", func(as string, g *grp) string {
-					return fmt.Sprintf("%d of %d exponents fail at base 2 (reported: the smallest)", g.count, n)
-				})
-			})
-		}
 		add(fn+" outside domain", func(c *ctx) {
 			outB := []*big.Int{bi(0), bi(-1), new(big.Int).Neg(one18), badd(two18, bi(1)), bmul(bi(3), one18), bmul(bpow2(255), one18)}
 			if fn == "Pow" {
@@ -655,6 +639,9 @@ func bsItem(c *ctx, kind, fname string) {
 		return bigDecFn(fname)(bigDec(x)).BigInt()
 	}
 	for _, b := range bounds {
+		if b.lo.Cmp(b.hi) == 0 {
+			c.vac("bsearch_degenerate_interval")
+		}
 		mid := bquo(badd(b.lo, b.hi), bi(3))
 		ts := []*big.Int{eval(b.lo), eval(b.hi), eval(mid), badd(eval(mid), bi(1)), bsub(eval(mid), bi(1)),
 			badd(eval(b.hi), u(1000000)), bi(0), u(7), u(1000), u(123456789)}
